@@ -368,3 +368,65 @@ Proof.
   - cbn [app lex_lt list_eqb]. destruct (Z.ltb_spec a b); destruct (Z.ltb_spec b a); destruct (Z.eqb_spec a b);
       try lia; cbn [andb]; auto; try (apply IH; lia).
 Qed.
+
+(* ------------------------------------------------------------------ the stable sort commutes with
+   filtering; a sorted list is its own sort; projections of the tagged concatenation *)
+Section SortFilter.
+Context {A : Type} (lt : A -> A -> bool).
+Hypothesis lt_asym : forall a b, lt a b = true -> lt b a = false.
+Hypothesis le_trans : forall a b c, lt b a = false -> lt c b = false -> lt c a = false.
+
+Lemma sortedG_filter p l : sortedG lt l -> sortedG lt (filter p l).
+Proof.
+  induction l as [|x l IH]; cbn [filter sortedG]; auto. intros [Sx Sl].
+  destruct (p x); [|apply IH; exact Sl]. cbn [sortedG]. split; [|apply IH; exact Sl].
+  intros y Hy. apply filter_In in Hy. apply Sx. tauto.
+Qed.
+
+Lemma gins_filter p x : forall l, sortedG lt l ->
+  filter p (ins lt x l) = if p x then ins lt x (filter p l) else filter p l.
+Proof.
+  induction l as [|y l IH]; intros S; cbn [ins filter].
+  - destruct (p x); reflexivity.
+  - cbn [sortedG] in S. destruct S as [Sy Sl]. destruct (lt y x) eqn:E.
+    + cbn [filter]. rewrite (IH Sl). destruct (p x), (p y); cbn [ins]; try rewrite E; reflexivity.
+    + cbn [filter]. destruct (p x); [|reflexivity].
+      symmetry. apply gins_head. intros z Hz.
+      assert (Hz' : In z (y :: l)) by (destruct (p y); [destruct Hz as [<-|Hz]; [left; reflexivity|right]|right];
+                                       apply filter_In in Hz; tauto).
+      destruct Hz' as [<-|Hz']; [exact E|]. eapply le_trans; [exact E|apply Sy; exact Hz'].
+Qed.
+
+Lemma gssort_filter p l : filter p (ssort lt l) = ssort lt (filter p l).
+Proof.
+  induction l as [|x l IH]; cbn [ssort fold_right filter]; auto. fold (ssort lt l).
+  rewrite gins_filter by (apply gssort_sorted; auto). rewrite IH.
+  destruct (p x); reflexivity.
+Qed.
+
+Lemma gssort_id l : sortedG lt l -> ssort lt l = l.
+Proof.
+  induction l as [|x l IH]; cbn [ssort fold_right sortedG]; auto. intros [Sx Sl].
+  fold (ssort lt l). rewrite (IH Sl). apply gins_head. exact Sx.
+Qed.
+End SortFilter.
+
+Lemma filter_tag_from {A} (i : nat) : forall (L : list (list A)) k, (k <= i)%nat ->
+  filter (fun u : nat * A => Nat.eqb (fst u) i) (tag_from k L) = map (pair i) (nth (i - k) L []).
+Proof.
+  induction L as [|l L IH]; intros k H; cbn [tag_from filter].
+  - destruct (i - k)%nat; reflexivity.
+  - rewrite filter_app. destruct (Nat.eqb_spec k i) as [->|N].
+    + rewrite Nat.sub_diag. cbn [nth].
+      rewrite filter_all by (intros u Hu; apply in_map_iff in Hu; destruct Hu as [x [<- _]]; apply Nat.eqb_refl).
+      assert (E : filter (fun u : nat * A => Nat.eqb (fst u) i) (tag_from (S i) L) = []).
+      { clear. generalize (S i) (Nat.lt_succ_diag_r i). induction L as [|l L IHL]; intros k H; cbn [tag_from filter]; auto.
+        rewrite filter_app, IHL by lia. rewrite app_nil_r.
+        induction l as [|x l IHl]; cbn [map filter fst]; auto.
+        destruct (Nat.eqb_spec k i); [lia|exact IHl]. }
+      rewrite E, app_nil_r. reflexivity.
+    + replace (i - k)%nat with (S (i - S k)) by lia. cbn [nth]. rewrite IH by lia.
+      assert (E : filter (fun u : nat * A => Nat.eqb (fst u) i) (map (pair k) l) = []).
+      { induction l as [|x l IHl]; cbn [map filter fst]; auto. destruct (Nat.eqb_spec k i); [contradiction|exact IHl]. }
+      rewrite E. reflexivity.
+Qed.
